@@ -41,8 +41,47 @@ func runC20(c *Ctx, w *World, r *Report) {
 		r.Unknown("R-ANCHOR", "size.sizeof", w.Pos(of.Pos()), "size.Of does not call a module function taking a reflect.Value")
 		return
 	}
+	// follow thin wrappers: a function that does not branch on Kind itself but hands its value to one module function
+	for depth := 0; depth < 3; depth++ {
+		branches := false
+		eachInstr(sizeof, func(ins ssa.Instruction) {
+			if v, ok := ins.(ssa.Value); ok && isKindCallOn(v, sizeof.Params[0]) {
+				branches = true
+			}
+		})
+		if branches {
+			break
+		}
+		var next *ssa.Function
+		eachInstr(sizeof, func(ins ssa.Instruction) {
+			if call, ok := ins.(*ssa.Call); ok {
+				if f := call.Common().StaticCallee(); f != nil && w.InModule(f) && f.Blocks != nil && len(f.Params) >= 1 &&
+					types.TypeString(f.Params[0].Type(), nil) == "reflect.Value" && len(call.Common().Args) >= 1 && call.Common().Args[0] == ssa.Value(sizeof.Params[0]) {
+					next = f
+				}
+			}
+		})
+		if next == nil {
+			break
+		}
+		sizeof = next
+	}
 	r.OK("R-ANCHOR", "size.Of->"+w.FuncName(sizeof), w.Pos(sizeof.Pos()), "sizing function resolved through Of's call graph: "+w.FuncName(sizeof))
 	recv := ssa.Value(sizeof.Params[0])
+	// R-ADDITIVE: the size of a value is a function of that value alone
+	r.Rule("R-ADDITIVE", "the recursive sizing function is effect-free (E1): it writes no memory reachable from its parameters or from package-level variables, so the size of a part does not depend on what was visited before (a memo / visited set carried through the recursion makes shared sub-values count once: additivity is lost)")
+	{
+		e := RunEffects(w)
+		var bad []string
+		if sm := e.Sum[sizeof]; sm != nil {
+			for _, ws := range sm.wsites {
+				if ws.r.kind != rkFresh {
+					bad = append(bad, fmt.Sprintf("may write %s at %s (%s)", ws.r, ws.pos, ws.what))
+				}
+			}
+		}
+		r.Check(len(bad) == 0, "R-ADDITIVE", w.FuncName(sizeof), w.Pos(sizeof.Pos()), strings.Join(bad, "; "), "no write to non-fresh memory")
+	}
 	r.Units["sizeof_blocks"] = len(sizeof.Blocks)
 
 	hasKindSwitch := false
@@ -259,6 +298,23 @@ func runC20(c *Ctx, w *World, r *Report) {
 		if len(panics) > 0 {
 			// already reported under R-KINDS; recursion facts are meaningless on a panicking slice
 			continue
+		}
+		// Type.Size() includes alignment padding: it may feed the sum for scalar kinds only
+		if _, isComposite := map[string]bool{"Array": true, "Interface": true, "Map": true, "Ptr": true, "Slice": true, "String": true, "Struct": true}[kn]; isComposite {
+			for _, b := range sizeof.Blocks {
+				if !slice[b] {
+					continue
+				}
+				for _, ins := range b.Instrs {
+					call, ok := ins.(*ssa.Call)
+					if !ok || !call.Common().IsInvoke() || call.Common().Method.Name() != "Size" || !strings.HasSuffix(types.TypeString(call.Common().Value.Type(), nil), "reflect.Type") {
+						continue
+					}
+					if flowsTo(call, isReturnSink) {
+						miss = append(miss, fmt.Sprintf("a plain sum of parts: reflect.Type.Size() (which includes alignment padding and ignores indirect parts) feeds the result for this composite kind at %s", w.InstrPos(ins)))
+					}
+				}
+			}
 		}
 		// full range: an index-driven recursion must enumerate 0..n-1 with n the
 		// accessor that counts the parts
